@@ -185,6 +185,14 @@ class World:
         except Exception:  # noqa: BLE001
             return False
 
+    @staticmethod
+    def age(f):
+        """Content changes do not have to show in the modification time (cp -p, a checkout that preserves times, an
+        archive unpacked over the tree): every file the history writes looks older than any report; only Touch makes
+        one look new."""
+        t = time.time() - 1000
+        os.utime(f, (t, t))
+
     # ---- steps ----
     def step(self, op):
         """Execute one operation of a Workspace.tla behaviour. Returns exception class name or ''."""
@@ -195,6 +203,7 @@ class World:
                 f = self.f(op[1])
                 f.parent.mkdir(parents=True, exist_ok=True)
                 f.write_text(CONTENTS[op[2]])
+                self.age(f)
             elif k == "Delete":
                 self.f(op[1]).unlink()
             elif k == "Rename":
@@ -209,6 +218,8 @@ class World:
                 ta, tb = a.read_text(), b.read_text()
                 a.write_text(tb)
                 b.write_text(ta)
+                self.age(a)
+                self.age(b)
             elif k == "SetExcl":
                 y = self.root / ".codelimit.yml"
                 ex = list(op[1])
